@@ -843,6 +843,8 @@ val is_pat_target : node -> bool
 
 val hoist_key : config -> node -> sp -> acc -> pstate -> (node * acc) * pstate
 
+val key_hoisted : node -> bool
+
 val hoist_member :
   config -> node -> sp -> acc -> pstate -> ((node * acc) * pstate) option
 
@@ -1148,6 +1150,8 @@ val guard_parts : char list -> node -> (char list * node) option
 
 val mk_opt : node -> node
 
+val is_super_callee : node -> bool
+
 val unguard :
   char list -> (char list * node) list -> char list -> node -> node
 
@@ -1290,6 +1294,14 @@ val regex_operand : node list -> bool
 val has_dup_str : char list list -> bool
 
 val operand_temps : char list -> node list -> char list list
+
+val is_array_copy : node -> bool
+
+val spread_temps : char list -> node list -> char list list
+
+val noncopy_assigned : char list -> node list -> char list list
+
+val seq_spread_issue : char list -> node -> char list list
 
 val shape_issues : char list -> node -> char list list
 
